@@ -150,7 +150,10 @@ func planC08sweep(c *Ctx, run int64) *Plan {
 			add("append", n.Ptr, Op{S2: Pick(r, []string{"T23:59:59", " ", "0", ".0", "a", "Z", "-", "%"})})
 			// white space around a text: the kind of difference a lenient reader or a
 			// tidying validation rule makes disappear
-			if n.V.S != "" && !strings.HasSuffix(n.V.S, " ") {
+			// (not around base64 text — members named "data" —: the decoder skips line
+			// breaks there, the bytes read are the same, and a respelling of the same
+			// value is outside this fault space, §5)
+			if n.V.S != "" && !strings.HasSuffix(n.V.S, " ") && n.Key != "data" {
 				add("append", n.Ptr, Op{S2: Pick(r, []string{" ", "\t", "\n"})})
 				add("setstr", n.Ptr, Op{S2: " " + n.V.S})
 			}
